@@ -110,6 +110,10 @@ func (a *Act) checkGuard(st *State, mu string, write bool, what string, pos toke
 
 // extraObligations adds property-specific structural obligations (send-site enumeration, format side conditions, ...).
 func (e *Engine) extraObligations(prop string, cfg *PropCfg) []*Obl {
+	switch prop {
+	case "C15":
+		return e.c15Obligations(prop)
+	}
 	return nil
 }
 
